@@ -141,22 +141,25 @@ func (c *Ctx) ruleVrfImportGate() {
 	}
 	fk := ir.FuncKey(ci)
 	var lookups, trans int
-	for _, b := range ci.Blocks {
-		for _, in := range b.Instrs {
-			switch x := in.(type) {
-			case *ssa.Lookup:
-				if fieldLoadName(x.X) == "ImportRt" {
-					lookups++
-					// dominated by the transitive test's true edge
-					for _, t := range staticCallsOf(ci, false, "isTransitiveType") {
-						for _, ref := range *t.Referrers() {
-							if i, ok := ref.(*ssa.If); ok && edgeDominates(i.Block(), 0, b) {
-								trans++
+	// the test itself, a predicate closure it hands to slices.ContainsFunc, or a helper of the package
+	for _, cf := range c.withHelpers(ci, 1) {
+		for _, b := range cf.Blocks {
+			for _, in := range b.Instrs {
+				switch x := in.(type) {
+				case *ssa.Lookup:
+					if fieldLoadName(x.X) == "ImportRt" {
+						lookups++
+						// dominated by the transitive test's true edge
+						for _, t := range staticCallsOf(cf, false, "isTransitiveType") {
+							for _, ref := range *t.Referrers() {
+								if i, ok := ref.(*ssa.If); ok && edgeDominates(i.Block(), 0, b) {
+									trans++
+								}
 							}
 						}
+					} else if n := fieldLoadName(x.X); n != "" {
+						r.Bad(rule, fk, "import set", c.P.InstrPos(x), "the import test consults "+n+" instead of the import route-target set")
 					}
-				} else if n := fieldLoadName(x.X); n != "" {
-					r.Bad(rule, fk, "import set", c.P.InstrPos(x), "the import test consults "+n+" instead of the import route-target set")
 				}
 			}
 		}
@@ -469,7 +472,12 @@ func (c *Ctx) ruleRTCReevaluate() {
 				continue
 			}
 			ck := ir.FuncKey(e.Caller.Func)
-			if allowed[ck] {
+			var akeys []string
+			for a := range allowed {
+				akeys = append(akeys, a)
+			}
+			sort.Strings(akeys)
+			if c.familyKey(e.Caller.Func, akeys) != "" {
 				n++
 				r.Ok(rule, ck, fn.Name(), c.P.InstrPos(e.Site), "reviewed caller")
 			} else {
@@ -500,12 +508,12 @@ func (c *Ctx) ruleRTCReevaluate() {
 			if !ok {
 				continue
 			}
-			mc, ok := call.Call.Value.(*ssa.MakeClosure)
-			if !ok {
+			// a local closure, a variable holding one, or a helper of the package that asks the handler
+			cl := calleeOf(&call.Call)
+			if cl == nil || !c.P.InModule(cl) || cl.Name() == "HasRouteTarget" || !c.callsNamed(cl, "HasRouteTarget", 1) {
 				continue
 			}
-			cl := mc.Fn.(*ssa.Function)
-			if len(staticCallsOf(cl, false, "HasRouteTarget")) == 0 {
+			if cl.Name() == "SyncAfterImport" || cl.Name() == "rtcVPNCandidates" {
 				continue
 			}
 			if dominatesInstr(call, syncs[0]) {
@@ -553,8 +561,10 @@ func (c *Ctx) ruleRTCReevaluate() {
 	// announcements pass the export pipeline
 	var cb *ssa.Function
 	for _, a := range cands[0].Call.Args {
-		if mc, ok := a.(*ssa.MakeClosure); ok {
-			cb = mc.Fn.(*ssa.Function)
+		if _, isFn := a.Type().Underlying().(*types.Signature); isFn {
+			if f := funcValue(a); f != nil {
+				cb = f
+			}
 		}
 	}
 	if cb == nil {
